@@ -104,6 +104,15 @@ def rets (w : When) : List Nat → When
   | [] => w
   | v :: vs => vs.foldl andRet (ret w v)
 
+/-- `Matches(Pair{a, v}, …)` (when.go:171-192), one pair: (as the source stands) `w.Return(v)` first — which extends whatever
+    stub is current, or the default — then a new DefaultMatcher `a ↦ [v]` is appended to `matches`; `curMatch` is not changed.
+    Whether the `w.Return` call is there is read from the source (`Gen.Cursor.matchesReturnsFirst`). -/
+def matchPair (w : When) (p : Nat × Nat) : When :=
+  let w1 := if matchesReturnsFirst then ret w p.2 else w
+  { w1 with ms := w1.ms ++ [⟨.eq p.1, [p.2], 0⟩], mlist := w1.mlist ++ [w1.ms.length] }
+
+def matchesOp (w : When) (ps : List (Nat × Nat)) : When := ps.foldl matchPair w
+
 /-- `CreateWhen(m, f, args, defaultReturns, _)` (when.go:42-72) for a function with results:
     `dflt` given → AlwaysMatcher which is both default and curMatch; `c` given → a DefaultMatcher becomes curMatch -/
 def createWhen (c : Option Cond) (dflt : Option Nat) : When :=
@@ -153,7 +162,7 @@ def afterCalls (w : When) : List Nat → When
     through the `*When` returned earlier -/
 inductive Op where
   | mRet (v : Nat) | mWhen (c : Cond) | mRets (vs : List Nat)
-  | wRet (v : Nat) | wAnd (v : Nat) | wRets (vs : List Nat) | wWhen (c : Cond)
+  | wRet (v : Nat) | wAnd (v : Nat) | wRets (vs : List Nat) | wWhen (c : Cond) | wMatches (ps : List (Nat × Nat))
   | call (a : Nat)
   deriving Repr
 
@@ -167,6 +176,7 @@ def opStep (s : Option When) : Op → Option When × Option Obs
   | .wAnd v => (s.map (andRet · v), none)
   | .wRets vs => (s.map (rets · vs), none)
   | .wWhen c => (s.map (whenOp · c), none)
+  | .wMatches ps => (s.map (matchesOp · ps), none)
   | .call a =>
     match s with
     | none => (none, some .orig)
